@@ -9,7 +9,7 @@ from vlib.flow import parent_map
 from vlib.core import AnalysisError, Report
 from vlib.grammar import GrammarModel
 from vlib.nodemodel import NodeModel
-from vlib.match import X, atoms, calls, closure, deref, facts, has_call, nodes
+from vlib.match import X, atoms, calls, closure, closure_fi, deref, facts, has_call, nodes
 from vlib.srcindex import ClassInfo, FuncInfo, SourceIndex, attr_chain, const_str, unparse, walk_no_nested
 
 EXPLANATION = (
@@ -39,6 +39,7 @@ def run(rep: Report, tier: str) -> None:
 	rule_d(rep, idx)
 	rule_e(rep, idx)
 	rule_f(rep, idx)
+	rule_g(rep, idx)
 
 
 def rule_a(rep: Report, idx: SourceIndex) -> None:
@@ -134,7 +135,7 @@ def rule_a(rep: Report, idx: SourceIndex) -> None:
 	jd = _default(join, 'delimiter')
 	ed = _default(elements, 'delimiter')
 	r.check(jd == ed == '.', 'separator', join.where, f'DSN.join default delimiter {jd!r} / DSN.elements default delimiter {ed!r}')
-	r.check('DSN.join(' in unparse(pm.func('EntryPath.join').node) and 'DSN.elements(self.origin)' in unparse(pm.func('EntryPath.elements').node), 'path-uses-dsn', pm.func('EntryPath.join').where, 'EntryPath no longer builds/splits paths with DSN.join / DSN.elements')
+	r.check(has_call(closure_fi(pm.func('EntryPath.join')), 'DSN.join') and any(c_.args and unparse(c_.args[0]) == 'self.origin' for c_ in calls(closure_fi(pm.func('EntryPath.elements')), 'DSN.elements')), 'path-uses-dsn', pm.func('EntryPath.join').where, 'EntryPath no longer builds/splits paths with DSN.join / DSN.elements')
 	# tags
 	rt = rep.rule('C10/tags-are-plain', 'no grammar tag or terminal name contains the separator or bracket characters', floor=150)
 	gm = GrammarModel()
@@ -473,10 +474,31 @@ def rule_f(rep: Report, idx: SourceIndex) -> None:
 	# the de-indexing accessors themselves
 	pm = idx.mod(PATH)
 	tag_prop = idx.mod('rogw/tranp/syntax/node/node.py').func('Node.tag')
-	r.check('last_tag' in unparse(tag_prop.node), 'Node.tag-is-deindexed', tag_prop.where, 'Node.tag no longer returns the de-indexed last tag of the path')
+	r.check(any(isinstance(n, ast.Attribute) and n.attr == 'last_tag' for b in closure_fi(tag_prop) for n in ast.walk(b)), 'Node.tag-is-deindexed', tag_prop.where, 'Node.tag no longer returns the de-indexed last tag of the path')
 	lt = pm.func('EntryPath.last_tag')
 	ltx = closure(lt)
 	via_pair = any(isinstance(n, ast.Attribute) and unparse(n) == 'self.last' for n in nodes(ltx)) or has_call(ltx, '__break_tag')
 	whole = any(isinstance(n, ast.Return) and n.value is not None and unparse(n.value) == 'self.last' for n in nodes(ltx[0]))
 	r.check(via_pair and not whole, 'last_tag-strips-index', lt.where, 'EntryPath.last_tag no longer takes the tag part of self.last (tag, index), i.e. no longer strips the [index] suffix')
 	rep.extra_coverage['raw_element_comparisons'] = n_raw
+
+
+def rule_g(rep: Report, idx: SourceIndex) -> None:
+	"""Entry paths are dotted: `a.list` is a string prefix of `a.list_comp`, but `a.list_comp` is not below `a.list`. Every prefix / suffix / replace
+	operation in the path index and the node queries therefore compares with a text that ends (prefix) or begins (suffix) with the separator or a
+	bracket, so that whole elements are compared (children / siblings / expand then agree with the tree for sibling tags in a prefix relation)."""
+	from vlib.anchoring import Taint, find_sites
+	r = rep.rule('C10/path-prefix-tests-anchored', 'every startswith / endswith / replace on an entry path in the path index, the path class and the node queries is anchored on the separator (or compares bracket delimiters)', floor=2)
+	files = ['rogw/tranp/syntax/ast/cache.py', 'rogw/tranp/syntax/ast/path.py', 'rogw/tranp/syntax/ast/query.py', 'rogw/tranp/syntax/node/query.py']
+	for rel in files:
+		m = idx.mod(rel)
+		rep.consulted(rel)
+		for q, f in m.functions.items():
+			if '#' in q:
+				continue
+			t = Taint(f, lambda e: None, lambda f_, p_: None, None)
+			for s_ in find_sites(f, t):
+				if s_.kind not in ('prefix', 'suffix', 'replace'):
+					continue
+				key = f'{rel}:{q}:{s_.text[:50]}'
+				r.check(s_.anchored, key, (rel, s_.node.lineno), f'{q} tests `{s_.text[:80]}` on an entry path without the separator: the path of a sibling whose tag merely extends another tag (`…list` / `…list_comp`, `…dict` / `…dict_comp`) matches too, so that sibling and its subtree are taken for descendants (dropped from expand, or returned as children of the wrong entry)', s_.text[:100])
